@@ -132,8 +132,10 @@ impl Uf for PInt {
     fn elem(i: usize) -> usize {
         SPARSE[i % 16] + 2000 * (i / 16)
     }
+    /// every third index only: the indices in between are never named, so that a representative that
+    /// strays to a neighbouring slot is seen as a wrong answer rather than as a walk that never ends
     fn big(i: usize) -> usize {
-        i
+        3 * i
     }
 }
 
